@@ -167,7 +167,7 @@ pub fn cse_detect(fe: &BodyForm) -> Result<Vec<CSEDetectionWithoutConditions>, C
         }
     }
 
-    let detections: Vec<CSEDetectionWithoutConditions> = by_hash
+    let mut detections: Vec<CSEDetectionWithoutConditions> = by_hash
         .into_iter()
         .filter_map(|(k, v)| {
             if v.len() < 2 {
@@ -188,6 +188,16 @@ pub fn cse_detect(fe: &BodyForm) -> Result<Vec<CSEDetectionWithoutConditions>, C
             })
         })
         .collect();
+
+    // The hashes cover compiler generated variable names, so their order
+    // depends on how many names the process has generated so far.  Order the
+    // detections by where they occur in the source instead, so the same
+    // source always yields the same code.
+    detections.sort_by(|a, b| {
+        let a_paths: Vec<&Vec<BodyformPathArc>> = a.instances.iter().map(|i| &i.path).collect();
+        let b_paths: Vec<&Vec<BodyformPathArc>> = b.instances.iter().map(|i| &i.path).collect();
+        a_paths.cmp(&b_paths)
+    });
 
     let useful_detections = detections
         .iter()
